@@ -146,7 +146,9 @@ Definition spec_check (c : case) : option bool :=
                         match k_orfs c with
                         | Some [o] =>
                             let o := unbs (snd o) in
-                            if k_translate c then true else
+                            (* (only the forward strand is searched: with both strands the reverse complement of a
+                               short, nearly palindromic copy can align better) *)
+                            if k_translate c || k_reverse c then true else
                             (* (the first base kept must not be an A: it could otherwise be aligned with the A of ATG at the same score) *)
                             match find (fun k => is_prefix (skipn k o) (snd row) && negb (beqb (nth k o x41) x41)) [1; 2; 4; 5]%nat with
                             | Some k =>
